@@ -497,6 +497,10 @@ pub fn c08(rec: &mut Rec, rng: &mut Rng, thorough: bool) {
         cfg.big = k % 5 == 0 && k % 4 != 0;
         let mut sim = run_history(rec, rng, cfg, "well-behaved");
         sim.settle(rec, rng);
+        if k % 10 == 0 {
+            // a signal interrupts the blocking wait: polling must still return normally (nothing to do)
+            sim.w.poll_interrupted(rec);
+        }
         common_checks(rec, &mut sim, "C08");
         check_yield_once(rec, &sim);
         // quiescence: no client input, unsent output or unanswered request remains ⇒ the epoll fd is silent
